@@ -234,7 +234,7 @@ theorem detach_once (cfg : Cfg) (s s' : State) (pw b : Nat) (why : Why) (size : 
   repeat' split at hs
   all_goals (first | (cases hs; done) | skip)
   rename_i _ P hP _ B hB hg
-  obtain ⟨hc, -, hd, hw⟩ := hg
+  obtain ⟨hc, -, hd, hw, -⟩ := hg
   cases hs
   refine ⟨P, B, hP, hB, hc, hd, ?_, { B with detached := some why }, by simp, rfl⟩
   intro h; subst h; simpa [whyOk] using hw
